@@ -313,3 +313,121 @@ def r10g(ctx: Ctx, only: tuple[str, ...] | None = None) -> list[Ob]:
             else:
                 obs.append(ok("R10g", c.qualname, inst, "no state written during evaluation", m.loc, nontrivial=False))
     return obs
+
+
+# ------------------------------------------------------------------------------------------ R10i
+VIEW_METHODS = {"view", "reshape", "permute", "transpose", "squeeze", "unsqueeze", "expand", "expand_as", "narrow", "unbind", "chunk", "split", "detach", "flatten", "unflatten", "movedim", "swapaxes", "select", "view_as", "contiguous", "t", "mT", "T", "real", "imag"}
+
+
+def _basic_index(sl: ast.AST) -> bool:
+    items = sl.elts if isinstance(sl, ast.Tuple) else [sl]
+    for x in items:
+        if isinstance(x, ast.Slice):
+            continue
+        if isinstance(x, ast.Constant) and (x.value is None or x.value is Ellipsis or isinstance(x.value, int)):
+            continue
+        if isinstance(x, ast.UnaryOp) and isinstance(x.operand, ast.Constant):
+            continue
+        if isinstance(x, ast.Name):
+            continue  # a loop counter: x[:, i] is a view
+        return False
+    return True
+
+
+def r10i(ctx: Ctx, only: tuple[str, ...] | None = None) -> list[Ob]:
+    """R10i -- evaluation methods do not write into their arguments.
+
+    The tensors handed to ``forward`` / ``sample`` are the stored outputs of other modules: the address
+    book hands out *views* where it can (``outputs[i][None]`` for a module that reads all folds of one
+    producer in order).  A value that aliases an argument -- the argument itself, a basic index
+    ``x[:, 0]``, a view method (``view / permute / unsqueeze / unbind ..``) of one -- must not be the
+    target of an augmented assignment (``y += ..`` is in place for tensors), of an in-place ``name_``
+    method, or of an item assignment: every later reader of the producer's output would see the
+    modified values (samples of other variables added twice, outside the domain)."""
+    obs: list[Ob] = []
+    for c in _module_classes(ctx):
+        if only is not None and not any(o in c.qualname for o in only):
+            continue
+        for mname in EVAL_METHODS:
+            m = c.methods.get(mname)
+            if m is None or m.is_abstract:
+                continue
+            params_ = {p.name for p in m.params if p.name not in ("self", "cls")}
+            if not params_:
+                continue
+            alias = set(params_)
+            fresh: set[str] = set()
+            changed = True
+            assigns = [n for n in walk_no_nested(m.node) if isinstance(n, ast.Assign) and len(n.targets) == 1 and isinstance(n.targets[0], ast.Name)]
+            loops = [n for n in walk_no_nested(m.node) if isinstance(n, ast.For) and isinstance(n.target, ast.Name)]
+
+            def is_alias_expr(e: ast.AST) -> bool:
+                if isinstance(e, ast.Name):
+                    return e.id in alias
+                if isinstance(e, ast.Subscript):
+                    return is_alias_expr(e.value) and _basic_index(e.slice)
+                if isinstance(e, ast.Attribute) and e.attr in VIEW_METHODS:
+                    return is_alias_expr(e.value)
+                if isinstance(e, ast.Call) and isinstance(e.func, ast.Attribute) and e.func.attr in VIEW_METHODS:
+                    return is_alias_expr(e.func.value)
+                if isinstance(e, ast.Call) and (dotted(e.func) or "").split(".")[-1] in ("reversed", "iter") and e.args:
+                    return is_alias_expr(e.args[0])
+                return False
+
+            while changed:
+                changed = False
+                for a in assigns:
+                    t = a.targets[0].id
+                    if is_alias_expr(a.value):
+                        if t not in alias:
+                            alias.add(t)
+                            changed = True
+                for lp in loops:
+                    if is_alias_expr(lp.iter) and lp.target.id not in alias:
+                        alias.add(lp.target.id)
+                        changed = True
+            # a name that is *also* bound to a fresh value somewhere is only an alias on some paths: keep it (may-alias)
+            bad = None
+            for n in walk_no_nested(m.node):
+                if isinstance(n, ast.AugAssign):
+                    t = n.target
+                    base = t
+                    while isinstance(base, ast.Subscript):
+                        base = base.value
+                    if isinstance(base, ast.Name) and base.id in alias and (base.id not in params_ or _tensor_param(m, base.id)):
+                        # an alias obtained through a view, or a tensor parameter itself
+                        if base.id in params_ or any(isinstance(a.value, (ast.Subscript, ast.Call, ast.Attribute)) for a in assigns if a.targets[0].id == base.id) or any(lp.target.id == base.id for lp in loops):
+                            bad = (n, f"`{unparse(n)[:60]}` updates in place")
+                            break
+                if isinstance(n, ast.Assign):
+                    for t in n.targets:
+                        if isinstance(t, ast.Subscript):
+                            base = t.value
+                            while isinstance(base, ast.Subscript):
+                                base = base.value
+                            if isinstance(base, ast.Name) and base.id in alias and (base.id not in params_ or _tensor_param(m, base.id)):
+                                bad = (n, f"`{unparse(t)[:40]} = ..` writes into")
+                                break
+                if isinstance(n, ast.Call) and isinstance(n.func, ast.Attribute) and n.func.attr.endswith("_") and not n.func.attr.startswith("_") and is_alias_expr(n.func.value):
+                    root = n.func.value
+                    while isinstance(root, (ast.Subscript, ast.Attribute, ast.Call)):
+                        root = root.func if isinstance(root, ast.Call) else root.value
+                    if isinstance(root, ast.Name) and (root.id not in params_ or _tensor_param(m, root.id)):
+                        bad = (n, f"`{unparse(n)[:60]}` modifies in place")
+                if bad:
+                    break
+            inst = f"inputs-untouched:{mname}"
+            if bad:
+                n, what = bad
+                obs.append(viol("R10i", c.qualname, inst, f"{what} a tensor that aliases an argument of {c.name}.{mname}: the argument is the stored output of another module (the address book hands out views), so every later reader of that output sees the modified values", f"{m.module.relpath}:{n.lineno}"))
+            else:
+                obs.append(ok("R10i", c.qualname, inst, "no in-place update of a value that aliases an argument", m.loc, nontrivial=False))
+    return obs
+
+
+def _tensor_param(m: Any, name: str) -> bool:
+    for p in m.params:
+        if p.name == name:
+            ann = unparse(p.annotation) if p.annotation is not None else ""
+            return "Tensor" in ann or ann == ""
+    return False
